@@ -102,27 +102,46 @@ def unhex(h):
     if h == "NULL": return None
     return bytes.fromhex(h).decode("latin-1")
 
-def build_dumper(cfg, builddir):
+def build_dumper(cfg, builddir, regs=False):
+    """compile and run translate/dump_tables.c against /repo (default program, or the register-table program)"""
     os.makedirs(builddir, exist_ok=True)
-    exe = os.path.join(builddir, "dump_tables")
-    srcs = [os.path.join(SRC, f) for f in ("fifo.c", "lexer.c", "minimal.c", "parser.c", "units.c", "utils.c", "expression.c")]
-    cmd = ["gcc", "-O0", "-w", "-I" + INC, "-I" + SRC] + CFG_FLAGS[cfg] + \
+    exe = os.path.join(builddir, "dump_regs" if regs else "dump_tables")
+    names = ["fifo.c", "lexer.c", "minimal.c", "parser.c", "units.c", "utils.c", "expression.c", "error.c"] + ([] if regs else ["ieee488.c"])
+    srcs = [os.path.join(SRC, f) for f in names]
+    cmd = ["gcc", "-O0", "-w", "-I" + INC, "-I" + SRC] + CFG_FLAGS[cfg] + (["-DDUMP_REGS"] if regs else []) + \
           [os.path.join(HERE, "dump_tables.c")] + srcs + ["-lm", "-o", exe]
     r = subprocess.run(cmd, capture_output=True, text=True)
     if r.returncode != 0:
-        sys.stderr.write(r.stderr)
-        raise SystemExit("translator: dumper does not compile for configuration %s" % cfg)
-    out = subprocess.run([exe], capture_output=True, text=True, check=True).stdout
-    return out
+        raise RuntimeError("dumper%s does not compile for configuration %s: %s" % (" (register tables)" if regs else "", cfg, r.stderr[-600:]))
+    r = subprocess.run([exe], capture_output=True, text=True, timeout=120)
+    if r.returncode != 0:
+        raise RuntimeError("dumper%s failed (exit %d): %s" % (" (register tables)" if regs else "", r.returncode, r.stderr[-300:]))
+    return r.stdout
+
+class Fail(Exception):
+    pass
 
 def generate(cfg="A", builddir=None, outpath=None):
+    """Regenerate Gen/Tables.lean.  Every section is extracted on its own; a section that cannot be extracted (the source
+    was rewritten in a way the translator does not understand) gets an empty / zero value and is reported in the result
+    under "failed" - the theorems and correspondences that depend on it then stop checking, the others are unaffected."""
     builddir = builddir or os.path.join(VERIF, "build", cfg)
     outpath = outpath or os.path.join(VERIF, "lean", "ScpiVerif", "Gen", "Tables.lean")
-    dump = build_dumper(cfg, builddir)
+    failed = {}
+    def section(name, fn, fallback):
+        try:
+            return fn()
+        except (Fail, RuntimeError, subprocess.SubprocessError, ValueError, KeyError, IndexError, AttributeError, OSError) as e:
+            failed[name] = str(e)[:400]
+            return fallback
+
     errclass, errdesc, regdet, reggrp, consts, strs, units, special, booldef = [], [], [], [], {}, {}, [], [], []
     fallback = ""
-    for line in dump.splitlines():
+    dump = section("public-dump", lambda: build_dumper(cfg, builddir), "")
+    dumpr = section("register-tables", lambda: build_dumper(cfg, builddir, regs=True), "")
+    for line in (dump + dumpr).splitlines():
         f = line.split()
+        if not f: continue
         if f[0] == "ERRCLASS": errclass.append((int(f[1]), int(f[2]), int(f[3])))
         elif f[0] == "ERRDESC": errdesc.append((int(f[1]), unhex(f[2]), unhex(f[3])))
         elif f[0] == "ERRFALLBACK": fallback = unhex(f[1])
@@ -138,60 +157,76 @@ def generate(cfg="A", builddir=None, outpath=None):
     parser = strip_comments(read(os.path.join(SRC, "parser.c")))
     unitsc = strip_comments(read(os.path.join(SRC, "units.c")))
 
-    b32 = func_body(utils, "UInt32ToStrBaseSign")
-    b64 = func_body(utils, "UInt64ToStrBaseSign")
     def divs(b):
         sc = switch_consts(b)
         d10 = sc.get(10, sc.get("default"))
-        return (sc.get(2, d10), sc.get(8, d10), d10, sc.get(16, d10))
+        r = (sc.get(2, d10), sc.get(8, d10), d10, sc.get(16, d10))
+        if any(x is None for x in r): raise Fail("divisor constants of the base switch not found")
+        return r
     def digits(b):
         m = re.search(r'digits\s*\[\s*\]\s*=\s*"([^"]*)"', b)
-        if not m: raise SystemExit("translator: digit alphabet not found")
+        if not m: raise Fail("digit alphabet not found")
         return m.group(1)
-    d32, d64 = divs(b32), divs(b64)
-    dig32, dig64 = digits(b32), digits(b64)
+    def fbody(src, fn):
+        try:
+            return func_body(src, fn)
+        except SystemExit as e:
+            raise Fail(str(e))
+    d32 = section("intfmt32-divisors", lambda: divs(fbody(utils, "UInt32ToStrBaseSign")), (0, 0, 0, 0))
+    d64 = section("intfmt64-divisors", lambda: divs(fbody(utils, "UInt64ToStrBaseSign")), (0, 0, 0, 0))
+    dig32 = section("intfmt32-digits", lambda: digits(fbody(utils, "UInt32ToStrBaseSign")), "")
+    dig64 = section("intfmt64-digits", lambda: digits(fbody(utils, "UInt64ToStrBaseSign")), "")
 
-    gbp = func_body(parser, "getBasePrefix")
-    prefixes = [(int(a), b) for a, b in re.findall(r'case\s+(\d+)\s*:\s*return\s*"([^"]*)"', gbp)]
+    def base_prefixes():
+        r = [(int(a), b) for a, b in re.findall(r'case\s+(\d+)\s*:\s*return\s*"([^"]*)"', fbody(parser, "getBasePrefix"))]
+        if not r: raise Fail("getBasePrefix: no 'case N: return \"..\"' found")
+        return r
+    prefixes = section("base-prefixes", base_prefixes, [])
 
     def bufsize(fn, var):
-        m = re.search(r"char\s+%s\s*\[\s*([0-9+ ]+)\s*\]" % var, func_body(parser, fn))
-        if not m: raise SystemExit("translator: buffer %s in %s not found" % (var, fn))
+        m = re.search(r"char\s+%s\s*\[\s*([0-9+ ]+)\s*\]" % var, fbody(parser, fn))
+        if not m: raise Fail("buffer %s in %s not found" % (var, fn))
         return sum(int(x) for x in m.group(1).split("+"))
-    sizes = {
-        "bufU32": bufsize("resultUInt32BaseSign", "buffer"),
-        "bufU64": bufsize("resultUInt64BaseSign", "buffer"),
-        "bufFloat": bufsize("SCPI_ResultFloat", "buffer"),
-        "bufDouble": bufsize("SCPI_ResultDouble", "buffer"),
-        "bufBlockHeader": bufsize("SCPI_ResultArbitraryBlockHeader", "block_header"),
-    }
-    m = re.search(r"SCPI_UInt32ToStrBase\s*\(\s*\(uint32_t\)\s*len\s*,\s*block_header\s*\+\s*(\d+)\s*,\s*(\d+)\s*,\s*(\d+)\s*\)",
-                  func_body(parser, "SCPI_ResultArbitraryBlockHeader"))
-    if not m: raise SystemExit("translator: block header conversion call not found")
-    sizes["blockHeaderOff"], sizes["blockHeaderLen"], sizes["blockHeaderBase"] = (int(m.group(i)) for i in (1, 2, 3))
+    sizes = {}
+    for key, fn, var in (("bufU32", "resultUInt32BaseSign", "buffer"), ("bufU64", "resultUInt64BaseSign", "buffer"),
+                         ("bufFloat", "SCPI_ResultFloat", "buffer"), ("bufDouble", "SCPI_ResultDouble", "buffer"),
+                         ("bufBlockHeader", "SCPI_ResultArbitraryBlockHeader", "block_header")):
+        sizes[key] = section("scratch-size-" + key, lambda fn=fn, var=var: bufsize(fn, var), 0)
+    def block_header_call():
+        m = re.search(r"SCPI_UInt32ToStrBase\s*\(\s*\(uint32_t\)\s*len\s*,\s*block_header\s*\+\s*(\d+)\s*,\s*(\d+)\s*,\s*(\d+)\s*\)",
+                      fbody(parser, "SCPI_ResultArbitraryBlockHeader"))
+        if not m: raise Fail("block header conversion call not found")
+        return tuple(int(m.group(i)) for i in (1, 2, 3))
+    sizes["blockHeaderOff"], sizes["blockHeaderLen"], sizes["blockHeaderBase"] = section("block-header-call", block_header_call, (0, 0, 0))
     m = re.search(r"#define\s+SCPI_DTOSTRE_BUFFER_SIZE\s+(\d+)", utils)
     sizes["dtostreBuf"] = int(m.group(1)) if m else 0
 
     # multiplier expressions of scpi_units_def, in table order, as exact rationals
-    tbl = re.search(r"scpi_units_def\s*\[\s*\]\s*=\s*\{(.*?)SCPI_UNITS_LIST_END", unitsc, flags=re.S)
-    if not tbl: raise SystemExit("translator: scpi_units_def not found")
-    mult_src = {}
-    for nm, un, mu in re.findall(r'\{\s*"([^"]+)"\s*,\s*(\w+)\s*,\s*([^}]+?)\s*\}', tbl.group(1)):
-        mult_src.setdefault(nm, (un, mult_fraction(mu)))
-    unit_rows = []
-    for nm, unit, hexf in units:
-        if nm not in mult_src:
-            raise SystemExit("translator: unit %s has no source row" % nm)
-        fr = mult_src[nm][1]
-        if float(fr) != float.fromhex(hexf):
-            raise SystemExit("translator: unit %s: source expression %s does not evaluate to compiled %s" % (nm, fr, hexf))
-        unit_rows.append((nm, unit, fr.numerator, fr.denominator))
+    def unit_table():
+        tbl = re.search(r"scpi_units_def\s*\[\s*\]\s*=\s*\{(.*?)SCPI_UNITS_LIST_END", unitsc, flags=re.S)
+        if not tbl: raise Fail("scpi_units_def not found")
+        mult_src = {}
+        for nm, un, mu in re.findall(r'\{\s*"([^"]+)"\s*,\s*(\w+)\s*,\s*([^}]+?)\s*\}', tbl.group(1)):
+            mult_src.setdefault(nm, (un, mult_fraction(mu)))
+        rows = []
+        for nm, unit, hexf in units:
+            if nm not in mult_src:
+                raise Fail("unit %s has no source row" % nm)
+            fr = mult_src[nm][1]
+            if float(fr) != float.fromhex(hexf):
+                raise Fail("unit %s: source expression %s does not evaluate to compiled %s" % (nm, fr, hexf))
+            rows.append((nm, unit, fr.numerator, fr.denominator))
+        return rows
+    unit_rows = section("unit-multipliers", unit_table, [])
 
     L = []
     A = L.append
     A("/- GENERATED by translate/extract.py from %s (configuration %s). Do not edit. -/" % (REPO, cfg))
+    if failed:
+        A("/- sections that could not be extracted (empty / zero below): %s -/" % ", ".join(sorted(failed)))
     A("namespace ScpiVerif.Gen\n")
     A("def config : String := %s" % lean_str(cfg))
+    A("/-- (highest code, lowest code, event-status bits): maximal ranges of codes by what one SCPI_ErrorPush sets, ascending -/")
     A("def errClassTable : List (Int × Int × Nat) := [%s]" %
       ", ".join("(%d, %d, %d)" % r for r in errclass))
     A("def errorList : List (Int × String) := [\n  %s]" %
@@ -226,7 +261,7 @@ def generate(cfg="A", builddir=None, outpath=None):
     if old != text:
         with open(outpath, "w") as f:
             f.write(text)
-    return {"changed": old != text, "path": outpath, "rows": {"errclass": len(errclass), "errdesc": len(errdesc),
+    return {"changed": old != text, "path": outpath, "failed": failed, "rows": {"errclass": len(errclass), "errdesc": len(errdesc),
             "units": len(unit_rows), "special": len(special)}}
 
 if __name__ == "__main__":
